@@ -488,7 +488,7 @@ def ieee_obligations(check, lows, types):
 
 
 def keep_replay(check, path):
-    d = os.path.join(os.path.dirname(os.path.dirname(check.work)), 'replays')
+    d = check.replay_dir
     os.makedirs(d, exist_ok=True)
     dst = os.path.join(d, os.path.basename(path))
     import shutil
